@@ -26,6 +26,9 @@ Abs(a)     == IF a >= 0 THEN a ELSE -a
 SumSeq(q)  == FoldLeft(LAMBDA acc, x : acc + x, 0, q)
 MaxSeq0(q) == FoldLeft(LAMBDA acc, x : Max2(acc, x), 0, q)
 PosOf(q, e) == CHOOSE i \in DOMAIN q : q[i] = e
+(* concatenation of a sequence of sequences (iterative; the CommunityModules  *)
+(* FlattenSeq recurses once per element and overflows the stack on 300 lines) *)
+Concat(seqs) == FoldLeft(LAMBDA acc, x : acc \o x, <<>>, seqs)
 (* ascending sequence of a finite set of integers (linear in the set; the   *)
 (* CommunityModules SetToSortSeq enumerates all permutations)               *)
 RECURSIVE SortedSeqOf(_)
@@ -69,12 +72,11 @@ SRank(I, s, p)  == I.ranks[s][PosOf(I.prefs[s], p)]
 LRank(I, l, s)  == I.lrank[l][s]
 MaxRank(I)      == MaxSeq0([s \in S(I) |-> MaxSeq0(I.ranks[s])])
 
-RECURSIVE Ext(_, _)
-Ext(I, k) == IF k = 0 THEN {<<>>}
-             ELSE LET prev == Ext(I, k - 1)
-                      ch   == {0} \cup Acc(I, k)
-                  IN  {Append(m, c) : m \in prev, c \in ch}
-AllM(I) == Ext(I, I.ns)
+(* all assignments of students to acceptable projects or to nobody, built   *)
+(* student by student (iteratively: instances may have hundreds of students  *)
+(* with empty lists)                                                         *)
+AllM(I) == FoldLeft(LAMBDA acc, s : {Append(m, c) : m \in acc, c \in {0} \cup Acc(I, s)},
+                    {<<>>}, [s \in 1 .. I.ns |-> s])
 
 AssignedP(I, m, p) == {s \in S(I) : m[s] = p}
 AssignedL(I, m, l) == {s \in S(I) : m[s] # 0 /\ I.plec[m[s]] = l}
@@ -118,21 +120,20 @@ Feasible(I, pc, stab) ==
 
 Assigned(I, m) == {s \in S(I) : m[s] # 0}
 Size(I, m)     == Cardinality(Assigned(I, m))
-CostS(I, m)    == MapThenSumSet(LAMBDA s : SRank(I, s, m[s]), Assigned(I, m))
-CostL(I, m)    == IF I.two THEN MapThenSumSet(LAMBDA s : LRank(I, I.plec[m[s]], s), Assigned(I, m))
+(* sums over students / lecturers as folds over 1..n (iterative) *)
+SumOverS(I, m, val(_)) == SumSeq([s \in 1 .. I.ns |-> IF m[s] # 0 THEN val(s) ELSE 0])
+CostS(I, m)    == SumOverS(I, m, LAMBDA s : SRank(I, s, m[s]))
+CostL(I, m)    == IF I.two THEN SumOverS(I, m, LAMBDA s : LRank(I, I.plec[m[s]], s)) ELSE 0
+SqCostS(I, m)  == SumOverS(I, m, LAMBDA s : SRank(I, s, m[s]) * SRank(I, s, m[s]))
+SqCostL(I, m)  == IF I.two THEN SumOverS(I, m, LAMBDA s : LRank(I, I.plec[m[s]], s) * LRank(I, I.plec[m[s]], s))
                            ELSE 0
-SqCostS(I, m)  == MapThenSumSet(LAMBDA s : SRank(I, s, m[s]) * SRank(I, s, m[s]), Assigned(I, m))
-SqCostL(I, m)  == IF I.two
-                  THEN MapThenSumSet(LAMBDA s : LRank(I, I.plec[m[s]], s) * LRank(I, I.plec[m[s]], s),
-                                     Assigned(I, m))
-                  ELSE 0
 Degree(I, m)   == IF Assigned(I, m) = {} THEN 0
                   ELSE Max({SRank(I, s, m[s]) : s \in Assigned(I, m)})
 AtRank(I, m, r) == Cardinality({s \in Assigned(I, m) : SRank(I, s, m[s]) = r})
 Profile(I, m)  == [r \in 1 .. MaxRank(I) |-> AtRank(I, m, r)]
 LecDiff(I, m, l) == Abs(LCount(I, m, l) - I.lt[l])
 MaxDiff(I, m)  == Max({LecDiff(I, m, l) : l \in L(I)})
-SumDiff(I, m)  == MapThenSumSet(LAMBDA l : LecDiff(I, m, l), L(I))
+SumDiff(I, m)  == SumSeq([l \in 1 .. I.nl |-> LecDiff(I, m, l)])
 
 -----------------------------------------------------------------------------
 (* Optimisation criteria.                                                  *)
@@ -170,7 +171,7 @@ StepVal(I, m, st) ==
       [] st.k = "lsb"     -> SumDiff(I, m)
       [] st.k = "costlsb" -> st.a * CostS(I, m) + st.b * SumDiff(I, m)
 
-AllSteps(I, crits) == FlattenSeq([i \in DOMAIN crits |-> Steps(I, crits[i])])
+AllSteps(I, crits) == Concat([i \in DOMAIN crits |-> Steps(I, crits[i])])
 
 Better(st, v, w)   == IF st.sense = "max" THEN v > w ELSE v < w
 BestVal(I, F, st)  == LET vs == {StepVal(I, m, st) : m \in F}
